@@ -122,7 +122,7 @@ class FB:
                     start_col=self.col, family=form.family)
         self.comments.append(c)
         self._cur = c
-        self.raw(form.open)
+        self.raw(form.open.replace("\n", self.eol))      # an opener that spans lines (spliced `//` comment) uses the file's line terminator
         return c
 
     def close_comment(self):
